@@ -2,7 +2,7 @@
     Statements only; proofs in Run/RunProofs.v, Run/RunCounters.v, Match/CoreProofs.v. *)
 From Coq Require Import ZArith List Bool.
 From V Require Import Csv.CsvModel Data.DataModel Scan.ScanModel Scan.ScanSpec Run.RunLoop Run.RunProofs Run.RunCounters
-  Run.RunFold Match.Adjudicate Match.Core Match.CoreProofs Match.AggProofs Match.CoreRun Match.CountIfRun.
+  Run.RunFold Match.Adjudicate Match.Core Match.CoreProofs Match.AggProofs Match.CoreRun Match.CountIfRun Match.PushDistinct.
 Import ListNotations.
 Open Scope Z_scope.
 
@@ -270,6 +270,24 @@ Proof.
   cbn zeta. split; [vm_compute; reflexivity|]. split; [vm_compute; reflexivity|]. split; [vm_compute; reflexivity|]. split; [|reflexivity].
   exists [], [CB (BEqEqS (SHdr 1) (SLit [97]))]. split; [reflexivity|]. split; repeat constructor; unfold writes_comp; cbn [comp_agg writes]; discriminate.
 Qed.
+
+(** push_distinct(): one evaluation pushes the value unless the stack already holds an equal one (Python's ==: 3 == 3.0, "3" != 3),
+    and a stack that only push_distinct() writes never holds two equal values — after ANY run (any csvpath around it, any file, scan,
+    entry point, budget) *)
+Theorem C03_push_distinct_step : forall q blanks AND s l k e,
+  let st := match lookup k (stacks (x mx s)) with Some st => st | None => [] end in
+  let v := nvalue blanks s l e in
+  let s' := do_action q blanks AND s l (PushD k e) in
+  lookup k (stacks (x mx s')) = Some (if existsb (val_eqb v) st then st else st ++ [v]) /\
+  (forall k', k <> k' -> lookup k' (stacks (x mx s')) = lookup k' (stacks (x mx s))) /\
+  vars (x mx s') = vars (x mx s) /\ dicts (x mx s') = dicts (x mx s).
+Proof. exact push_distinct_step. Qed.
+Print Assumptions C03_push_distinct_step.
+Theorem C03_pushed_distinct_stays_distinct : forall q AND cs (e : option Z) blanks (c : cfg) s0 bud (recs : list (line ustring)) k,
+  Forall (pushd_owns k) cs -> stack_distinct k (x mx s0) ->
+  stack_distinct k (x mx (st ustring mx (run_from ustring mx (core_m q blanks AND cs e) c s0 bud recs))).
+Proof. exact pushed_distinct_stays_distinct. Qed.
+Print Assumptions C03_pushed_distinct_stays_distinct.
 
 Example C03_bookkeeping_nonvacuous :
   (* [ tally(#1)  first.d7(#1)  counter.v8(2)  sum.v9(#0)  @d5.tot = count() ] over 3, 5, 3 (column 0) / a, b, a (column 1) *)
